@@ -77,7 +77,13 @@ func getOneLineSourceFromPkgStack(
 func getOneLineSourceFromPrintedStack(st string) (file string, line int, fn string, ok bool) {
 	// We only need 3 lines: the function/file/line info will be on the first two lines.
 	// See parsePrintedStack() for details.
-	lines := strings.SplitN(strings.TrimSpace(st), "\n", 3)
+	st = strings.TrimSpace(st)
+	if st == "" {
+		// A stack trace without frames prints as the empty string:
+		// there is no source to report, like for the stack itself.
+		return "", 0, "", false
+	}
+	lines := strings.SplitN(st, "\n", 3)
 	if len(lines) > 0 {
 		_, file, line, fnName := parsePrintedStackEntry(lines, 0)
 		if fnName != "unknown" {
